@@ -7,6 +7,7 @@ package semantic
 import (
 	"fmt"
 	"os"
+	"regexp"
 	"strconv"
 	"testing"
 )
@@ -22,7 +23,8 @@ func verifGen(eco string, limit int) []string {
 		sufs = []string{"", "~rc1", "-1", "-2", "+b1", "~", "-1ubuntu1", "a", "~a", "+dfsg", "-1~bpo1", ".a"}
 		bases = append([]string{"1:1.0", "0:1.0", "2:0.1"}, bases...)
 	case "Alpine":
-		sufs = []string{"", "-r0", "-r1", "_alpha", "_alpha1", "_beta", "_rc1", "_p1", "_pre", "a", "b", "_git", "-r10", "~hash"}
+		sufs = []string{"", "-r0", "-r1", "_alpha", "_alpha1", "_beta", "_rc1", "_p1", "_pre", "a", "b", "_git", "-r10", "~hash", "~0abc",
+			"_git1~abcdef-r5", "_git1-r5", "_git1-r3", "_p1-r2", "~abc-r1", "a_rc1~0123abc-r0", "_git20240101~0123abc-r0", "_alpha1_p2-r1"}
 	case "PyPI":
 		sufs = []string{"", "a1", "b1", "rc1", ".post1", ".dev1", "+local", "a", ".post", ".dev", "rc", "+abc.1", "-1", "alpha1", "c1", "pre1"}
 		bases = append([]string{"1!1.0", "0!1.0"}, bases...)
@@ -43,25 +45,55 @@ func verifGen(eco string, limit int) []string {
 	}
 	seen := map[string]bool{}
 	var out []string
-	for _, s := range sufs {
-		for _, b := range bases {
-			v := b + s
-			if !seen[v] {
-				seen[v] = true
-				out = append(out, v)
+	add := func(v string) {
+		if !seen[v] {
+			seen[v] = true
+			out = append(out, v)
+		}
+	}
+	if eco == "Alpine" {
+		// the product of the productions of apk-tools' grammar: number{letter}{_suffix{number}}{~hash}{-r#}, with
+		// numeric parts whose string order differs from their numeric order
+		for _, num := range []string{"1.2", "1.10", "1.5"} {
+			for _, letter := range []string{"", "a"} {
+				for _, suf := range []string{"", "_git1", "_rc1", "_p1"} {
+					for _, hash := range []string{"", "~abc"} {
+						for _, build := range []string{"", "-r0", "-r5"} {
+							add(num + letter + suf + hash + build)
+						}
+					}
+				}
 			}
 		}
 	}
-	// interleave so that a prefix of the list mixes bases and suffixes
-	if len(out) > limit {
-		step := len(out) / limit
-		var sel []string
-		for i := 0; i < len(out) && len(sel) < limit; i += step {
-			sel = append(sel, out[i])
+	for _, s := range sufs {
+		for _, b := range bases {
+			add(b + s)
 		}
-		out = sel
+	}
+	// a fixed pseudo-random selection (linear congruential shuffle with a constant seed, so every run explores the same
+	// strings): a regular stride would keep hitting the same few bases
+	if len(out) > limit {
+		x := uint64(88172645463325252)
+		for i := len(out) - 1; i > 0; i-- {
+			x = x*6364136223846793005 + 1442695040888963407
+			j := int((x >> 33) % uint64(i+1))
+			out[i], out[j] = out[j], out[i]
+		}
+		out = out[:limit]
 	}
 	return out
+}
+
+var verifAlpineRe = regexp.MustCompile(`^[0-9]+(\.[0-9]+)*[a-z]?(_(alpha|beta|pre|rc|cvs|svn|git|hg|p)[0-9]*)*(~[0-9a-f]+)?(-r[0-9]+)?$`)
+
+// verifGrammarValid: an independent statement of the ecosystem's version grammar where the library itself does not
+// reject malformed strings (apk-tools' version grammar for Alpine); elsewhere acceptance by Parse is the criterion.
+func verifGrammarValid(eco, v string) bool {
+	if eco == "Alpine" {
+		return verifAlpineRe.MatchString(v)
+	}
+	return true
 }
 
 func verifCmp(eco, a, b string) (res int, ok bool, panicked interface{}) {
@@ -103,7 +135,7 @@ func TestVerifBounded(t *testing.T) {
 	evals, violations := 0, 0
 	report := func(format string, args ...interface{}) {
 		violations++
-		if violations <= 20 {
+		if violations <= 5000 {
 			fmt.Printf("BOUNDED-VIOLATION "+format+"\n", args...)
 		}
 	}
@@ -135,13 +167,20 @@ func TestVerifBounded(t *testing.T) {
 				}
 			}
 		}
+		// transitivity is demanded of grammar-valid versions only; where the library accepts strings outside the
+		// ecosystem's grammar without an error (Alpine), validity is judged by an independent statement of the grammar,
+		// not by the library's own 'invalid' flag
+		valid := make([]bool, n)
+		for i := range vs {
+			valid[i] = verifGrammarValid(eco, vs[i])
+		}
 		for i := range vs {
 			for j := range vs {
-				if !okm[i][j] || cmp[i][j] > 0 {
+				if !okm[i][j] || cmp[i][j] > 0 || !valid[i] || !valid[j] {
 					continue
 				}
 				for k := range vs {
-					if !okm[j][k] || !okm[i][k] || cmp[j][k] > 0 {
+					if !okm[j][k] || !okm[i][k] || cmp[j][k] > 0 || !valid[k] {
 						continue
 					}
 					evals++
